@@ -97,6 +97,8 @@ def random_specs(draw):
         spec["grid"] = draw(gen.cyl_grids(max_shape=(6, 8)))
         size = min(spec["grid"]["nr"] * spec["grid"]["dr"], spec["grid"]["nz"] * spec["grid"]["dz"])
     r0 = gen.r6(size * draw(st.floats(0, 0.3, **finite)))
+    if draw(st.integers(0, 4)) == 2:  # droplets that are larger than the region they are placed in (only their centres lie inside)
+        r0 = gen.r6(size * draw(st.floats(0.5, 1.5, **finite)))
     if draw(st.booleans()):
         spec["radius"] = r0
     else:
